@@ -316,6 +316,77 @@ func (g *genState) badFrame() FrameSpec {
 	return FrameSpec{Kind: "future", Off: 7, Fields: []rpcx.Field{genField(r, "bytes", 9999)}}
 }
 
+// aliasDeltas: distances at which a call id could collide with another one if
+// the table of pending calls were keyed by anything less than the full 64-bit
+// id: every power of two, every small distance, a few multiples.
+func aliasDeltas(r *hx.Rng, all bool) []uint64 {
+	var ds []uint64
+	for j := uint(1); j < 64; j++ {
+		if all || r.Intn(4) == 0 {
+			ds = append(ds, uint64(1)<<j)
+		}
+	}
+	// small distances: the fixed history has 1..300, every seeded one a
+	// window of 40 somewhere below 1100
+	lo, hi := 1, 300
+	if !all {
+		lo = 1 + r.Intn(1060)
+		hi = lo + 39
+	}
+	for m := lo; m <= hi; m++ {
+		ds = append(ds, uint64(m))
+	}
+	for j := 0; j < 12; j++ {
+		ds = append(ds, uint64(3+r.Intn(5000))<<uint(r.Intn(50)))
+	}
+	return ds
+}
+
+// alias: while calls are outstanding the peer sends well-formed replies of
+// the right type whose id lies a given distance beyond the highest
+// outstanding id (nobody has that id); afterwards every call is answered.
+func (g *genState) alias(all bool) {
+	var fs []FrameSpec
+	for _, d := range aliasDeltas(g.r, all) {
+		fs = append(fs, FrameSpec{Kind: "alias", To: -1, Off: d})
+		if len(fs) >= 64 {
+			g.frames(fs)
+			fs = nil
+		}
+	}
+	g.frames(fs)
+}
+
+// held: one call stays unanswered while n more are issued and answered; then
+// one more call; then the peer answers the old call and the new one, in
+// that order.
+func (g *genState) held(n int) {
+	g.calls(1, "hello")
+	old := g.pending[0]
+	for n > 0 {
+		b := 1 + g.r.Intn(16)
+		if b > n {
+			b = n
+		}
+		n -= b
+		g.calls(b, "")
+		var fs []FrameSpec
+		for len(g.pending) > 1 {
+			i := g.r.Intn(len(g.pending))
+			if g.pending[i] == old {
+				continue
+			}
+			fs = append(fs, g.good(g.takePending(i)))
+		}
+		g.frames(fs)
+	}
+	g.calls(1, "hello")
+	last := g.pending[len(g.pending)-1]
+	g.pending = nil
+	g.answered = append(g.answered, old, last)
+	g.frames([]FrameSpec{g.good(old), g.good(last)})
+}
+
 // early: one call whose reply the peer sends while serve is held between
 // the send and the recording of the call as pending.
 func (g *genState) early(kind string) {
@@ -376,6 +447,18 @@ func genHistory(seed uint64, i int) Case {
 		g.answerAll(false, false)
 		c.Steps = g.steps
 		return c
+	case 5: // replies with ids nobody has, at every distance a smaller key could confuse
+		c.Stream = "alias"
+		g.calls(3, "hello")
+		g.alias(true)
+		g.answerAll(false, false)
+		c.Steps = g.steps
+		return c
+	case 6, 7, 8: // an old call answered after 255 / 1023 / 127 younger ones
+		c.Stream = "held"
+		g.held([]int{255, 1023, 127}[i-6])
+		c.Steps = g.steps
+		return c
 	case 1:
 		c.Stream = "sendfail"
 		g.calls(3, "hello")
@@ -404,8 +487,14 @@ func genHistory(seed uint64, i int) Case {
 		return c
 	}
 	streams := []string{"perm", "perm", "perm", "bad", "bad", "bad", "sendfail", "errbyte",
-		"shutdown", "hint", "peerclose", "cancel", "mixed", "mixed", "garbage", "early"}
+		"shutdown", "hint", "peerclose", "cancel", "mixed", "mixed", "garbage", "early", "alias"}
 	c.Stream = streams[r.Intn(len(streams))]
+	if i%97 == 20 { // a few long histories with an old call answered late
+		c.Stream = "held"
+		g.held([]int{63, 255, 256, 511, 257, 300}[r.Intn(6)] + 256*r.Intn(2))
+		c.Steps = g.steps
+		return c
+	}
 	rounds := 1 + r.Intn(3)
 	for round := 0; round < rounds && !g.dead; round++ {
 		n := 1 + r.Intn(8)
@@ -420,6 +509,9 @@ func genHistory(seed uint64, i int) Case {
 				g.calls(1+r.Intn(6), "")
 			}
 			g.answerAll(false, r.Intn(3) == 0)
+		case "alias":
+			g.alias(false)
+			g.answerAll(r.Intn(3) == 0, false)
 		case "bad", "mixed":
 			g.answerAll(true, true)
 		case "garbage": // wholly random frames, most of them fatal (non-zero error byte)
@@ -827,6 +919,33 @@ func (rn *runner) resolve(f FrameSpec) (data []byte, text bool, sf SentFrame) {
 			}
 			sf.Whole = false
 		}
+	case "alias":
+		// a reply of the right type and shape for the outstanding call with the
+		// highest id (To == -1) or for call To, at distance Off from its id
+		to := f.To
+		if to < 0 {
+			var top uint64
+			for pid, k := range rn.pending {
+				if to < 0 || pid > top {
+					to, top = k, pid
+				}
+			}
+		}
+		if to < 0 {
+			id, typ = rn.maxID+1000+f.Off, 1
+			data = rn.encodeGood(id, typ, "helloResponse", []rpcx.Field{{K: "bytes", B: rpcx.SegsOf([]byte("bogus"))}})
+			break
+		}
+		var resp string
+		id, typ, resp = idOf(to)
+		id += f.Off
+		fs := f.Fields
+		if fs == nil {
+			r := hx.NewRng(f.Off*31 + uint64(to))
+			fs = genResp(r, rn.callers[to].spec.Kind, 900000+to)
+		}
+		sf.Fields = fs
+		data = rn.encodeGood(id, typ, resp, fs)
 	case "wrongtype":
 		id, _, _ = idOf(f.To)
 		typ = f.Typ
